@@ -90,6 +90,8 @@ type c15Obs struct {
 
 	// load-shape cases only (c15_burst.go)
 	Burst *c15BurstObs `json:"burst,omitempty"`
+	// fault sequences only (c15_seq.go): one element per step
+	Seq *c15SeqObs `json:"seq,omitempty"`
 
 	Hung      bool   `json:"hung,omitempty"`
 	SetupErr  string `json:"setup_error,omitempty"`
@@ -108,6 +110,7 @@ type c15Upstream struct {
 	mu       sync.Mutex
 	requests int
 	paths    []string
+	keys     []string // query / metric form value of every request, in arrival order
 
 	// load-shape cases: a healthy upstream answers after delay, and keeps one
 	// record per request (which query, arrival and completion on the clock
@@ -206,6 +209,7 @@ func (u *c15Upstream) ServeHTTP(w http.ResponseWriter, r *http.Request) {
 	u.mu.Lock()
 	u.requests++
 	u.paths = append(u.paths, r.URL.Path)
+	u.keys = append(u.keys, r.Form.Get("query")+r.Form.Get("metric"))
 	t0, delay := u.t0, u.delay
 	u.mu.Unlock()
 	q := func(s string) string { b, _ := json.Marshal(s); return string(b) }
@@ -473,6 +477,9 @@ var c15Seq struct {
 
 // c15Execute runs one case against the real code and records what happened.
 func c15Execute(cs c15Case, index int, scratch string) (o c15Obs) {
+	if cs.Seq != nil {
+		return c15ExecuteSeq(cs, index, scratch)
+	}
 	o.Index = index
 	o.Case = cs
 	c15Seq.Lock()
